@@ -1,5 +1,5 @@
 (* C11 model runner.  One case per line:
-   <id> <cfg6bits> <preserve01> <wd> <cwd> <nprep> {d <path> | f <path> <tag> | l <path> <target>}* <npush>
+   <id> <cfg6bits> <preserve01> <wd> <cwd> <nprep> {d <path> | f <path> <tag> | l <path> <target> | h <path> <earlier file>}* <npush>
         { B <title> <tag> | U <title> <nent> { (r <name> <tag> <mode> | d <name> <mode> | h <name> <tgt> | s <name> <tgt> | o <name>) <time> }* }*
    strings are hex ("-" = empty); paths are absolute slash-separated strings; modes decimal.
    Pre-populated directories have mode 0755, files 0644.
@@ -30,6 +30,11 @@ let run_case id toks =
     | "l" -> let p = path_of_string (string_of_hex (next ())) in
              let t = str_of_hex (next ()) in
              ents := (p, sym_node t) :: !ents
+    | "h" -> let p = path_of_string (string_of_hex (next ())) in
+             let t = path_of_string (string_of_hex (next ())) in
+             (match List.assoc_opt t !ents with
+              | Some (NFile i) -> ents := (p, NFile i) :: !ents
+              | _ -> failwith "prep hard link: target is not an earlier file")
     | "f" -> let p = path_of_string (string_of_hex (next ())) in
              let tag = int_of_string (next ()) in
              ents := (p, NFile (nat_of_int !ino)) :: !ents;
@@ -82,4 +87,5 @@ let () =
   iter_lines (fun l ->
     match split_ws l with
     | [] -> ()
+    | [id; "X"] -> Printf.printf "%s UNJUDGED\n" id
     | id :: rest -> (try run_case id rest with Failure m -> Printf.printf "%s BADCASE %s\n" id m))
